@@ -108,3 +108,153 @@ def replay_xcase(path, fn=None):
         if "code" in det:
             print("--- source ---\n" + d["case"]["src"] + "--- emitted ---\n" + det["code"])
     return 1 if out.get("symptom") else 0
+
+
+# ----------------------------------------------------------------------------
+# call-shape families: split off the (shape, option) combinations that are the subject of an open finding
+
+from .. import families as _F
+
+
+def is_f02a(case):
+    """FUNC shapes whose middle function ends in a plain call *and* contains another call:
+    under tail_call_optimization these are the subject of finding F-02a."""
+    tag = case.get("tag", "")
+    if case.get("family") == "FUNC" and tag.startswith("chain2/"):
+        rk = tag.split("/")[2]
+        return rk not in _F.HASRET
+    return False
+
+
+def is_f04b(case):
+    """FUNC2 shapes where a value-returning leaf is inlined inside an inlined mid (finding F-04b; only with inlining on)."""
+    tag = case.get("tag", "").split("/")
+    return case.get("family") == "FUNC2" and tag[1] in _F.LEAF_HASRET and tag[4] == "False" and tag[5] == "False"
+
+
+def is_f06a(case):
+    """FUNC2 shapes whose mid ends in a plain call statement to a value-returning leaf: under tail-call + push/pop the
+    result pushed by the leaf is never popped (finding F-06a)."""
+    tag = case.get("tag", "").split("/")
+    return case.get("family") == "FUNC2" and tag[1] in _F.LEAF_HASRET and tag[2] == "tailstmt"
+
+
+def split_call_case(c, vs):
+    """Returns a list of cases (copies of c with 'variants' set): the main-family part and the witness parts."""
+    g = lambda v, k: bool(v.get(k, k == "inline_functions"))
+    parts = [(c, list(vs))]
+    if is_f02a(c):
+        parts = [(c, [v for v in vs if not g(v, "tail_call_optimization")]), (dict(c, family="W-F02a"), [v for v in vs if g(v, "tail_call_optimization")])]
+    if is_f06a(c):
+        bad = [v for v in vs if g(v, "tail_call_optimization") and g(v, "use_push_pop_functions")]
+        parts = [(c, [v for v in vs if v not in bad]), (dict(c, family="W-F06a"), bad)]
+    out = []
+    for cc, vv in parts:
+        if is_f04b(cc) and cc["family"] == "FUNC2":
+            out.append(dict(cc, variants=[v for v in vv if not g(v, "inline_functions")]))
+            out.append(dict(cc, variants=[v for v in vv if g(v, "inline_functions")], family="W-F04b"))
+        else:
+            out.append(dict(cc, variants=vv))
+    return [o for o in out if o["variants"]]
+
+
+# ----------------------------------------------------------------------------
+# generic driver for complete enumerations (X-ENUM, X-SEQ) that do not use X-RUN
+
+def enum_check(prop, tier, cases, fn, level, rule, assumptions, propose_only=False, extra_cov=None, det_n=6, nworkers=None, nontrivial=None, sample_of=None, do_warmup=True, exhaustive=True, mc_keys=None):
+    """cases: list of dicts with 'key' and 'family'; fn(case) -> outcome dict {key, family, symptom, detail, stats:{evaluations, ...}, sample}."""
+    t0 = time.time()
+    if do_warmup:
+        warmup()
+    outs = runner.pmap(fn, cases, nworkers=nworkers)
+    det = runner.determinism_check(fn, cases, outs, n=det_n) if det_n else []
+    if det:
+        print(f"HARNESS-ERROR property={prop}: non-deterministic observations on re-run of case(s) {[d[0] for d in det]}")
+        for d in det[:2]:
+            print("  first:", d[1][:400])
+            print("  again:", d[2][:400])
+        return 3
+    if propose_only:
+        propose(cases, outs)
+    nviol, hits, viol = runner.triage(prop, cases, outs)
+    evals = sum(int((o.get("stats") or {}).get("evaluations", 1)) for o in outs)
+    if nontrivial is None:
+        nontrivial = lambda o: int((o.get("stats") or {}).get("nontrivial", 1))
+    dn = sum(int(nontrivial(o)) for o in outs)
+    fam = {}
+    for o in outs:
+        f = fam.setdefault(o.get("family") or "?", {"cases": 0, "failing": 0, "evaluations": 0})
+        f["cases"] += 1
+        f["evaluations"] += int((o.get("stats") or {}).get("evaluations", 1))
+        f["failing"] += 1 if o.get("symptom") else 0
+    samples = []
+    seenf = set()
+    for c, o in zip(cases, outs):
+        if c.get("family") not in seenf and (o.get("sample") is not None or sample_of):
+            seenf.add(c.get("family"))
+            samples.append({"family": c.get("family"), "case": sample_of(c, o) if sample_of else o.get("sample")})
+    cov = {
+        "evaluations": evals,
+        "distinct_nontrivial": dn,
+        "rule": rule,
+        "samples": samples[:10],
+        "cases": len(cases),
+        "families": fam,
+        "known_findings_hit": {k: v[1] for k, v in hits.items()},
+        "exhaustive": bool(exhaustive),
+    }
+    if mc_keys:
+        cov.update(mc_keys(cases, outs))
+    if extra_cov:
+        cov.update(extra_cov(cases, outs) if callable(extra_cov) else extra_cov)
+    runner.write_evidence(prop, tier, level, cov, assumptions, time.time() - t0, nviol)
+    print(f"{prop} {tier}: cases={len(cases)} evaluations={evals} nontrivial={dn} violations={nviol} known={sum(v[1] for v in hits.values())} wall={time.time() - t0:.1f}s")
+    return 1 if nviol else 0
+
+
+def replay_generic(path, fn):
+    d = json.load(open(path))
+    warmup()
+    out = fn(d["case"])
+    print(json.dumps({"key": out["key"], "symptom": out.get("symptom"), "recorded_symptom": d.get("symptom")}, indent=1))
+    if out.get("detail"):
+        for k, v in out["detail"].items():
+            print(f"{k}: {str(v)[:3000]}")
+    return 1 if out.get("symptom") else 0
+
+
+def hkey(*parts):
+    import hashlib
+
+    return hashlib.sha256(json.dumps(parts, sort_keys=True, default=str, ensure_ascii=True).encode()).hexdigest()[:16]
+
+
+def is_f04b_lib(case):
+    """LIB shapes: a value-returning library function that calls another one, inlined at its single call site: its return-value
+    register is allocated over the library's module-level variable (finding F-04b, inlining on only)."""
+    t = case["tag"].split("/")
+    return t[1] == "True" and t[2] == "True"
+
+
+def split_lib_case(c, vs):
+    g = lambda v: bool(v.get("inline_functions", True))
+    if is_f04b_lib(c):
+        out = [dict(c, variants=[v for v in vs if not g(v)]), dict(c, variants=[v for v in vs if g(v)], family="W-F04b")]
+        return [o for o in out if o["variants"]]
+    return [dict(c, variants=list(vs))]
+
+
+def term_family(c, v):
+    """TERM programs: with an out-of-line function the main code falls through into it (finding F-07).  Nothing is out of line
+    when inlining is on and every function has exactly one call site."""
+    import re
+
+    src = c["src"]
+    names = re.findall(r"^def (\w+)\(", src, re.M)
+    single = all(len(re.findall(r"(?<![\w.])" + n + r"\(", src)) - 1 <= 1 for n in names)
+    called = [n for n in names if len(re.findall(r"(?<![\w.])" + n + r"\(", src)) - 1 >= 1]
+    if v.get("inline_functions", True) and single:
+        return "TERM"
+    if not called:
+        return "TERM"
+    return "W-F07"
